@@ -378,24 +378,7 @@ def run(tier: str, seed: int, replay=None) -> int:
     approx_states = dump_states("IntegerizeMC", "IntegerizeMC_approx_quick" if quick else "IntegerizeMC_approx_thorough",
                                 R, workers=W)
 
-    # ---- 2. spec -> code ----------------------------------------------------------------------------------
-    tiny = _tiny_scenarios(layer_states, rng, all_combos=not quick, n_states=3500 if quick else 0,
-                           n_predict_mau=40 if quick else 400)
-    approx = _approx_scenarios(approx_states, rng, n_predict=40 if quick else 400)
-    t0 = time.time()
-    tiny_tr = intnet.run_scenarios(tiny)
-    approx_tr = intnet.run_scenarios(approx)
-    R.extra["replay"] = {"layer_states_done": sum(1 for s in layer_states if s["ph"] == "done"), "tiny_replays": len(tiny),
-                         "approx_states_sel": sum(1 for s in approx_states if s["ph"] == "sel"),
-                         "approx_replays": len(approx), "wall_s": round(time.time() - t0, 1)}
-    R.sample({"scenario": tiny[0], "observed": {k: tiny_tr[0][k] for k in ("scale", "shift", "addend", "out")}})
-    R.sample({"scenario": approx[-1], "observed": {k: approx_tr[-1][k] for k in ("scales", "shift", "exc")}})
-    R.validate("IntegerizeTrace", "IntegerizeTrace", tiny_tr, tiny, label="tiny layers on the real classes",
-               nontrivial=lambda s: s["w"][0] * s["x"][0] + s["w"][1] * s["x"][1] != 0, workers=W, chunk=6000)
-    R.validate("IntegerizeTrace", "IntegerizeTrace", approx_tr, approx, label="_integer_approximation",
-               nontrivial=lambda s: any(abs(b) >= 2 ** 20 for b in s["bs"]), workers=W, chunk=6000)
-
-    # ---- 3. histories between export() and integerize_arch (IntegerizeLife) -------------------------------------------
+    # ---- 2. histories between export() and integerize_arch (IntegerizeLife) -------------------------------------------
     # design level: every history of bounded length satisfies the life-cycle invariants; three wrong transcriptions
     # (stale statistics, sticky process defaults, layers registered under flat names only) must violate theirs
     for bad, inv in (("stale", "CurrentStats"), ("sticky", "OptionsOfThisCall"), ("flatnames", "AllReplaced")):
@@ -409,8 +392,10 @@ def run(tier: str, seed: int, replay=None) -> int:
         life += _life_scenarios(dump_states("IntegerizeLife", "IntegerizeLife_nests", R, workers=4), 1, 2, rng, False)
     else:
         life += _life_scenarios(dump_states("IntegerizeLife", "IntegerizeLife_thorough", R, workers=4), 3, 4, rng, True)
-        life += _life_scenarios(dump_states("IntegerizeLife", "IntegerizeLife_thorough4", R, workers=4), 4, 4, rng, False)
+        l4 = _life_scenarios(dump_states("IntegerizeLife", "IntegerizeLife_thorough4", R, workers=4), 4, 4, rng, False)
+        life += rng.sample(l4, 600)             # length 4: a seeded sample of the 1372 histories
         life += _life_scenarios(dump_states("IntegerizeLife", "IntegerizeLife_nests_thorough", R, workers=4), 2, 4, rng, False)
+    # (run before the large replay batches exist: every history is forked from this process)
     t0 = time.time()
     for m in {_canon(sc["model"]): sc["model"] for sc in life}.values():
         intnet.get_fake(m)                      # built once here; the per-scenario child processes inherit them
@@ -429,6 +414,23 @@ def run(tier: str, seed: int, replay=None) -> int:
         for i, e in enumerate(life_tr[-1]["ev"]) if e["a"] == "int"]})
     R.validate("IntegerizeTrace", "IntegerizeTrace", life_tr, life, label="histories export -> updates -> conversions",
                nontrivial=_life_nontrivial, workers=W, chunk=1500)
+
+    # ---- 3. spec -> code ----------------------------------------------------------------------------------
+    tiny = _tiny_scenarios(layer_states, rng, all_combos=not quick, n_states=3500 if quick else 0,
+                           n_predict_mau=40 if quick else 400)
+    approx = _approx_scenarios(approx_states, rng, n_predict=40 if quick else 400)
+    t0 = time.time()
+    tiny_tr = intnet.run_scenarios(tiny)
+    approx_tr = intnet.run_scenarios(approx)
+    R.extra["replay"] = {"layer_states_done": sum(1 for s in layer_states if s["ph"] == "done"), "tiny_replays": len(tiny),
+                         "approx_states_sel": sum(1 for s in approx_states if s["ph"] == "sel"),
+                         "approx_replays": len(approx), "wall_s": round(time.time() - t0, 1)}
+    R.sample({"scenario": tiny[0], "observed": {k: tiny_tr[0][k] for k in ("scale", "shift", "addend", "out")}})
+    R.sample({"scenario": approx[-1], "observed": {k: approx_tr[-1][k] for k in ("scales", "shift", "exc")}})
+    R.validate("IntegerizeTrace", "IntegerizeTrace", tiny_tr, tiny, label="tiny layers on the real classes",
+               nontrivial=lambda s: s["w"][0] * s["x"][0] + s["w"][1] * s["x"][1] != 0, workers=W, chunk=6000)
+    R.validate("IntegerizeTrace", "IntegerizeTrace", approx_tr, approx, label="_integer_approximation",
+               nontrivial=lambda s: any(abs(b) >= 2 ** 20 for b in s["bs"]), workers=W, chunk=6000)
 
     # ---- 4. code -> spec: networks ---------------------------------------------------------------------------
     nets = net_scenarios(rng, 80 if quick else 2500)
